@@ -143,6 +143,9 @@ pub enum Op {
     DropHandle(usize),
     /// JoinHandle::is_finished(): 0/1; SKIP without handle or for thread tasks
     IsFinished(usize),
+    /// poll the JoinHandle of async task t once with a no-op waker (a `now_or_never` style probe): 1 = output taken,
+    /// 3 = cancelled (both consume the handle), 5 = pending (handle kept); SKIP without handle or for thread tasks
+    JoinProbe(usize),
     // ---- BatchSemaphore ------------------------------------------------------------------
     /// acquire(n) (blocking in threads, awaited in async tasks): 1 = Ok, 0 = closed; SKIP while this
     /// task keeps a pending acquisition (AcqStart)
@@ -289,7 +292,7 @@ impl Prog {
                         }
                         spawned[*t2] += 1;
                     }
-                    Op::Join(t2) | Op::Unpark(t2) | Op::Abort(t2) | Op::DropHandle(t2) | Op::IsFinished(t2) => {
+                    Op::Join(t2) | Op::Unpark(t2) | Op::Abort(t2) | Op::DropHandle(t2) | Op::IsFinished(t2) | Op::JoinProbe(t2) => {
                         if *t2 >= nt {
                             return bad("task");
                         }
